@@ -21,7 +21,7 @@ ENGINES = {
     "C09": ["e1"], "C14": ["e1"],
     "C07": ["e3"], "C12": ["e3"], "C13": ["e3"],
     "C11": ["e4"], "C15": ["e4"], "C18": ["e4"],
-    "C01": ["e2"], "C10": ["e2"], "C20": ["e2"],
+    "C01": ["e2"], "C10": ["e2"], "C20": ["e2"], "C19": ["e2c"],
 }
 
 
